@@ -2,6 +2,7 @@
 from ir import last_seg
 import analysis as A
 import common as K
+import predicates as P
 
 ACTIVE_WRITERS = {"MDK::create_group": "the creator's own group", "MDK::accept_welcome": "explicit consent of the invited user"}
 
@@ -75,9 +76,12 @@ def clause_eviction(prog, rep):
                         reg = f.reachable_from(s)
                         for c in f.live_calls():
                             if c.bb in reg and saveg.call(c):
-                                for t in prog.call_targets(c):
-                                    ext = prog.extent(t)
-                                    if any(any(True for _ in prog.fns[q].aggregates("GroupState", "Inactive")) for q in ext if q in prog.fns):
+                                # the handler (an mdk-core function on that side, or this one) assigns GroupState::Inactive to a
+                                # `.state` field before the save — merely mentioning the constant somewhere below does not count
+                                cands = [f] + [prog.fns[q] for t in prog.call_targets(c) for q in sorted(prog.extent(t))
+                                               if q in prog.fns and prog.fns[q].crate == "mdk_core" and not prog.fns[q].is_test_like()]
+                                for g in cands:
+                                    if ("GroupState", "Inactive") in P.field_const_writes(prog, g, "state"):
                                         ok_inactive = True
             rep.check(ok_inactive, "no-export-after-eviction", inst + "/inactive",
                       "the evicted side stores the group as Inactive",
